@@ -38,6 +38,7 @@ var modPaths = []modPool{
 	{"golang.org/x/net", []string{"v0.1.0", "v0.17.0", "v0.2.0"}},
 	{"gopkg.in/yaml.v3", []string{"v3.0.0", "v3.0.1"}},
 	{"rsc.io/quote", []string{"v1.5.2", "v1.5.3-pre1"}},
+	{"example.com/d", []string{"v2.0.0+incompatible", "v1.4.0", "v3.1.0+incompatible", "v2.0.1-rc.1+incompatible"}},
 }
 
 var modLocalDirs = []string{"../local", "./sub/mod", "../my mod"} // the last one needs quoting
@@ -45,7 +46,7 @@ var modGodebugKeys = []string{"panicnil", "http2client", "x509sha1"}
 var modTools = []string{"example.com/a/cmd/t", "golang.org/x/tools/cmd/stringer", "example.com/b/tool"}
 var modGoVersions = []string{"1.19", "1.20", "1.21", "1.22.1", "1.23", "1.9", "1.5", "1.21rc1", "1.100"}
 var modToolchains = []string{"go1.21.0", "go1.22.1", "go1.23.4"}
-var modOwnVersions = []string{"v1.0.0", "v1.1.0", "v1.2.0", "v1.3.0-rc.1", "v1.9.9"}
+var modOwnVersions = []string{"v1.0.0", "v1.1.0", "v1.2.0", "v1.3.0-rc.1", "v1.9.9", "v2.0.0+incompatible", "v2.1.0+incompatible"}
 var modRationales = []string{"", "bad release", "security: CVE-1\nuse v1.2.4 instead"}
 var workUseDirs = []string{"./a", "./b", "../c", "./sub/d", "./my mod"}
 
